@@ -102,6 +102,8 @@ pub struct Profile {
     pub bracket_titles: bool,
     /// links to notes whose text is an image
     pub image_links: bool,
+    /// section headings may begin with a number and a dot / parenthesis, or a bullet character
+    pub numbered_headings: bool,
     /// 0 = lists up to 13 items, 1 = also ~100, 2 = also ~1000
     pub long_lists: u8,
     /// internal links inside table cells (C05 leaves cells undecided)
@@ -135,6 +137,7 @@ impl Profile {
             wiki_in_section_headings: false,
             bracket_titles: false,
             image_links: false,
+            numbered_headings: false,
             long_lists: 1,
             cell_internal_links: true,
             piped_wiki: true,
@@ -253,6 +256,12 @@ impl<'a> Gen<'a> {
             _ if self.p.piped_wiki => LStyle::WikiPiped,
             _ => LStyle::Inline,
         };
+        // markup in the link's text with a bracket inside it (escaped in the source, and escaped again when written)
+        if matches!(style, LStyle::Inline | LStyle::RefDef) && self.rng.chance(1, 14) {
+            let (a, b) = (self.word(), self.word());
+            let br = Inl::Escape(if self.rng.chance(1, 2) { ']' } else { '[' });
+            text = vec![if self.rng.chance(1, 2) { Inl::Strong(vec![a, br, b]) } else { Inl::Emph(vec![a, br, b]) }];
+        }
         // a thumbnail that leads to a note: the link's text is an image (and stays one when titles are refreshed)
         if style == LStyle::Inline && self.p.image_links && self.rng.chance(1, 12) {
             let name = self.words.next(self.rng, false);
@@ -462,9 +471,14 @@ impl<'a> Gen<'a> {
         if v.is_empty() {
             v.push(self.word());
         }
+        // a numbered heading ("## 1. Introduction"), or one that begins with another block marker: as the text of a list item
+        // (section-to-list) the marker must stay text
+        if self.p.numbered_headings && level >= 2 && self.rng.chance(1, 5) {
+            v.insert(0, Inl::W(self.rng.pick(&["1.", "2)", "12.", "-", "+", "1986."]).to_string()));
+        }
         // a heading that ends in " #" (spelled setext: in ATX spelling the run would be the closing sequence)
         if style == HStyle::Setext && self.rng.chance(1, 6) {
-            v.push(Inl::W("#".into()));
+            v.push(Inl::W(if self.rng.chance(1, 2) { "#".into() } else { "##".into() }));
         }
         // a title that begins with a tag in brackets ("[WIP] Refactor"): links to the note take it as their text
         if self.p.bracket_titles && level == 1 && self.rng.chance(1, 8) {
